@@ -31,7 +31,7 @@ def _run(payload):
 
 def pool_map(fn, items, procs=None, limit=900, progress=None):
     """fn must be a module-level function; results as a list of (item, result, secs) in completion order"""
-    procs = procs or min(16, os.cpu_count() or 4)
+    procs = procs or int(os.environ.get('VERIF_PROCS') or min(16, os.cpu_count() or 4))
     ctx = mp.get_context('fork')
     out = []
     with ctx.Pool(procs, maxtasksperchild=4) as pool:
